@@ -121,3 +121,13 @@ func VerifOpenTable[K Key, E Entry[K]](db *DB) *Table[K, E] {
 func VerifOpenDBWith(store *VerifKV, codec encoding.Codec) *DB {
 	return &DB{DB: store, options: options{Codec: codec}}
 }
+
+// VerifOpenTableWith is VerifOpenTable with secondary indexes registered; the (empty) populate phase of each
+// index is completed on the spot.
+func VerifOpenTableWith[K Key, E Entry[K]](db *DB, idxs ...Index[K, E]) *Table[K, E] {
+	for _, i := range idxs {
+		_, finish := i.populate()
+		finish(nil)
+	}
+	return &Table[K, E]{db: db, keyPrefix: newKeyPrefix[E](), indexes: idxs}
+}
